@@ -21,6 +21,8 @@ type c02Result struct {
 	Executions int            `json:"executions"`
 	Scenarios  int            `json:"scenarios"`
 	WithChoice int            `json:"scenarios_with_choice"`
+	Company    int            `json:"company_scenarios"`
+	CompanyNT  int            `json:"company_scenarios_with_diagnostics"`
 	ChoicePts  int            `json:"choice_points"`
 	Capped     int            `json:"capped_choice_points"`
 	SitesHit   map[string]int `json:"sites_hit_with_2plus_keys"`
@@ -99,13 +101,15 @@ func c02(args []string) int {
 	}
 	hit := map[string]int{}
 	seen := map[string]int{}
-	var states, transitions, choice, capped, withChoice, distinct int
+	var states, transitions, choice, capped, withChoice, distinct, company, companyNT int
 	for _, r := range results {
 		states += r.Scenarios
 		transitions += r.Executions
 		choice += r.ChoicePts
 		capped += r.Capped
 		withChoice += r.WithChoice
+		company += r.Company
+		companyNT += r.CompanyNT
 		distinct += r.DistinctObs
 		for k, v := range r.SitesHit {
 			hit[k] += v
@@ -142,6 +146,11 @@ func c02(args []string) int {
 		ev.Cap(fmt.Sprintf("%d choice points had more than 4 keys: rotations, reversal and adjacent transpositions only", capped))
 	}
 	ev.Set("distinct_observations", distinct)
+	ev.Set("checker_company_scenarios", company)
+	ev.Set("checker_company_scenarios_with_diagnostics", companyNT)
+	if companyNT > 0 {
+		ev.Nontrivial("checker-company")
+	}
 
 	// cross-process leg on the uninstrumented binaries (conformance; real map randomisation)
 	c02real(ev, tier, &states, &transitions)
@@ -150,7 +159,7 @@ func c02(args []string) int {
 	ev.Set("transitions", transitions)
 	ev.Set("traces_validated_against_impl", transitions)
 	ev.Set("deviation_bound", map[string]int{"quick": 1, "thorough": 2}[tier])
-	ev.Set("rule", "state = scenario (program analysed by all checkers on a long-lived set; registry listing); transition = one execution under a map-order plan. Every dynamic visit of every map-range site is a choice point; every permutation of its keys (<=4 keys; else rotations/reversal/adjacent swaps) is explored as one deviation from the canonical order (thorough: all pairs of deviations). Each execution runs the real, rewritten go-critic code, so traces_validated_against_impl = transitions. Goroutine timing is explored in C04.")
+	ev.Set("rule", "state = scenario (program analysed by all checkers on a long-lived set; registry listing); transition = one execution under a map-order plan. Every dynamic visit of every map-range site is a choice point; every permutation of its keys (<=4 keys; else rotations/reversal/adjacent swaps) is explored as one deviation from the canonical order (thorough: all pairs of deviations). Each execution runs the real, rewritten go-critic code, so traces_validated_against_impl = transitions. Second environment choice per program: the company a checker runs in - registration order on the long-lived set vs reverse order on a fresh context (for every ordered pair of checkers one of the two runs has the one before the other). Goroutine timing is explored in C04.")
 	ev.Assume("map ranges in third-party code (go-ruleguard, go/types) are not instrumented; they are covered only by the repeated real-binary runs")
 	return ev.Finish()
 }
